@@ -904,6 +904,13 @@ func (s *blobStore) completePushAfterInitialPost(ctx context.Context, req *http.
 		return fmt.Errorf("mismatch content length %d: expect %d", req.ContentLength, expected.Size)
 	}
 	req.ContentLength = expected.Size
+	if expected.Size == 0 {
+		// a zero ContentLength with a non-nil Body means unknown length to
+		// net/http, which would send the empty blob chunked and without
+		// the Content-Length header
+		req.Body = http.NoBody
+		req.GetBody = func() (io.ReadCloser, error) { return http.NoBody, nil }
+	}
 	// the expected media type is ignored as in the API doc.
 	req.Header.Set("Content-Type", "application/octet-stream")
 	q := req.URL.Query()
